@@ -134,4 +134,5 @@ func (t *Trace) Emit(o *Op, res string) {
 	t.w.WriteString("\n")
 	t.N++
 	t.Res("%s", res)
+	t.w.Flush() // crash safety: a trace is complete up to the operation that killed the process
 }
